@@ -186,9 +186,11 @@ class InterpModel:
 
 
     # ------------------------------------------------------------------ normalised summaries
-    def summary(self, v):
+    def summary(self, v, sequential=True):
         """paths in the shape of isaref.path(): conds (frozenset), regs {index: value}, pc, stores,
-        atomics, exit, calls; bounds-check results are rewritten to ('inbounds', addr, nbytes)"""
+        atomics, exit, calls; bounds-check results are rewritten to ('inbounds', addr, nbytes).
+        With `sequential`, a store of load(a) + x to the same address a is reported as an add to memory
+        (what it is for single-threaded values: C01/C03/C04); C18 asks for the literal effects."""
         out = []
         for p in self.per_opcode(v):
             checks = {}
@@ -205,6 +207,21 @@ class InterpModel:
                     atomics.append((e[1], e[2], e[3]))
                 elif e[0] == "call" and e[1] == "indirect":
                     calls.append(e)
+            if sequential:
+                kept = []
+                for w, a, x in stores:
+                    ld = ("load", w, a)
+                    rest = None
+                    if isinstance(x, tuple) and x and x[0] == "op" and x[1] == "add" and x[2] == w:
+                        if x[3] == ld:
+                            rest = x[4]
+                        elif x[4] == ld:
+                            rest = x[3]
+                    if rest is not None:
+                        atomics.append((w, a, rest))
+                    else:
+                        kept.append((w, a, x))
+                stores = kept
             conds = set()
             for c in p["conds"]:
                 conds.add(self._subst_checks(c, checks))
